@@ -243,7 +243,15 @@ def scripts(cs):
         dict(op='unlink', path='/a/..', _expect='IsADirectoryError'), dict(op='touch', path='/top.txt/..', _expect='NotADirectoryError'),
         dict(op='rename', path='/e', target='/a/b/..', _expect='IsADirectoryError'),
         M(dict(op='rmdir', path='/a/b/../../e'), dict(path='/e')), M(dict(op='rename', path='/a/./b', target='/a/../b2'), dict(path='/a/b', target='/b2')),
-        M(W('/b2/../b2/./deep.bin', blob(2 * cs, 24)), dict(path='/b2/deep.bin')), M(dict(op='rmdir', path='/d/../d'), dict(path='/d'))]
+        M(W('/b2/../b2/./deep.bin', blob(2 * cs, 24)), dict(path='/b2/deep.bin')), M(dict(op='rmdir', path='/d/../d'), dict(path='/d')),
+        # '..' deeper than one level: the directory that HOLDS the entry is found by eliminating '..' lexically
+        dict(op='mkdir', path='/x'), W('/x/keep.bin', blob(cs + 9, 25)), dict(op='mkdir', path='/a/x'), dict(op='mkdir', path='/a/q'),
+        M(dict(op='rmdir', path='/a/q/../x'), dict(path='/a/x')),
+        dict(op='mkdir', path='/a/c2'), W('/a/c2/inside.bin', blob(5, 26)), dict(op='mkdir', path='/c2'),
+        M(dict(op='rename', path='/a/q/../c2', target='/a/q/moved'), dict(path='/a/c2', target='/a/q/moved')),
+        dict(op='rename', path='/a', target='/a/q/../q/inner', _expect='EINVAL'),
+        M(dict(op='rename', path='/a/q/moved', target='/a/q/../back'), dict(path='/a/q/moved', target='/a/back')),
+        M(dict(op='rmdir', path='/a/q/../q'), dict(path='/a/q'))]
     # a directory that spanned several clusters is emptied and removed; a NEW directory then starts on the same first cluster
     # while a file takes over the other clusters; when the new directory grows past its first cluster nothing of the old
     # one may be remembered (its former clusters now belong to the file)
